@@ -543,6 +543,8 @@ func chainRunOnce(s *Summary, c *chainCase, sp chainSplit, outerPrefix string, c
 					r.Use(decoyMw)
 					r.Group("/sub", func() { r.GET("/decoy2", nopHandler) }, decoyMw)
 				}, inner...)
+				// Use() in the outer group AFTER the nested group has returned: still the outer group's (for what follows in it)
+				r.Use(func(cx *rux.Context) { cur.log = append(cur.log, []any{"in", -5, cx.IsAborted()}) })
 				// registered after the inner group has returned: only the outer group's middleware applies
 				r.GET("/sib", func(cx *rux.Context) { cur.log = append(cur.log, []any{"in", -3, cx.IsAborted()}) })
 			}, outer...)
@@ -710,6 +712,17 @@ func chainRunOnce(s *Summary, c *chainCase, sp chainSplit, outerPrefix string, c
 		}{{sibPrefix + "/sib", sp.gBefore + sp.gAfter + sp.outer + sp.outUse, -3}, {"/top", sp.gBefore + sp.gAfter, -4}} {
 			path, method = pr.path, "GET"
 			probe := serve()
+			late := 0
+			for _, e := range probe.log {
+				if h, ok := e[1].(int); ok && h == -5 {
+					late++
+				}
+			}
+			if late > 1 || (pr.tag != -3 && late != 0) { // (an earlier handler of /sib may stop the chain before it)
+				s.mismatch(desc("enter", fmt.Sprintf("route %s: the middleware added with Use() in the outer group after its nested group returned ran %d time(s) (it belongs to the routes that follow it in the outer group, here /sib only): %v",
+					pr.path, late, probe.log)), c)
+				return
+			}
 			for _, e := range probe.log {
 				if h, ok := e[1].(int); ok && e[0] == "in" && h > pr.allowed {
 					s.mismatch(desc("enter", fmt.Sprintf("route %s, registered after a group returned, runs handler #%d of the chain of /x (only the first %d belong to its scope): %v",
